@@ -230,6 +230,26 @@ pub fn run(opts: &Opts) -> i32 {
     lists.push((0..k).map(|_| r3.pick(&variants).clone()).collect());
   }
 
+  // template-like patterns: if the unit text is ever assembled by textual substitution, a pattern that looks like a
+  // placeholder (or like a piece of the fixed text) must still arrive unchanged
+  {
+    let names = ["EXCLUDES", "EXCLUDE", "EXCLUDE_ARGS", "BIN", "BINARY", "LAYOUT", "LAYOUT_FILE", "DEV", "DEVICE", "INSTANCE", "ARGS", "PATTERN", "0", "1", ""];
+    let mut r4 = rng.fork(4);
+    let mut tl: Vec<String> = Vec::new();
+    for n in names.iter() {
+      for (a, b) in [("@", "@"), ("{", "}"), ("{{", "}}"), ("${", "}"), ("%", "%"), ("$", ""), ("<", ">"), ("[[", "]]"), ("__", "__"), ("%(", ")s")].iter() {
+        tl.push(format!("{}{}{}", a, n, b));
+        tl.push(format!("{}{}{}", a, n.to_lowercase(), b));
+      }
+    }
+    for w in ["/usr/bin/totalmapper", "/etc/totalmapper.json", "--exclude", "--dev-file", "--only-if-keyboard", "/%I", "%I", "ExecStart=", "remap", "--layout-file"].iter() { tl.push(w.to_string()); }
+    for t in &tl { lists.push(vec![t.clone()]); lists.push(vec![format!("x{}y", t)]); }
+    for _ in 0..(if thorough { 3000 } else { 300 }) {
+      let k = r4.range(2, 4);
+      lists.push((0..k).map(|_| if r4.chance(2, 3) { r4.pick(&tl).clone() } else { random_pattern(&mut r4, &rel) }).collect());
+    }
+  }
+
   let mut cases: Vec<Case> = Vec::with_capacity(lists.len());
   let mut svc = 0u64;
   let mut c17 = 0u64;
